@@ -87,10 +87,10 @@ func runC15(c *Ctx) {
 					if fa, ok := st.Addr.(*ssa.FieldAddr); ok {
 						o, s := ownerOfFieldBase(fa.X.Type())
 						if o == H {
-							vals["H."+s.Field(fa.Field).Name()] = T(st.Val)
+							vals["H."+fieldNameOf(s.Field(fa.Field))] = T(st.Val)
 						}
 						if o == GI {
-							vals["I."+s.Field(fa.Field).Name()] = T(st.Val)
+							vals["I."+fieldNameOf(s.Field(fa.Field))] = T(st.Val)
 						}
 					}
 				}
@@ -142,7 +142,7 @@ func runC15(c *Ctx) {
 							if o == H {
 								n++
 								if !instrDominates(st, sg) {
-									late = s.Field(fa.Field).Name()
+									late = fieldNameOf(s.Field(fa.Field))
 								}
 							}
 						}
